@@ -682,6 +682,41 @@ func mutate(n ast.Node, keep map[ast.Node]bool) {
 	})
 }
 
+// avoidedClass: input classes of the known findings (replayed from the corpus stream, not generated)
+func avoidedClass(tmpl *vh.R, env map[string]*vh.R) string {
+	cls := ""
+	top := true
+	tmpl.Walk(func(x *vh.R) {
+		if !x.Slice && x.Tag == "ParenExpr" {
+			cls = "paren"
+		}
+		if op, body := quoteForm(x); op != "" {
+			if !top && len(body.Kids) == 0 {
+				cls = "nested-empty-body"
+			}
+			if top && op == tQQ && len(body.Kids) == 1 {
+				e := body.Kids[0]
+				for isWrapper(e) {
+					e = e.Kids[0]
+				}
+				if o, b := quoteForm(e); o == tSPLICE && len(b.Kids) == 1 {
+					v := b.Kids[0]
+					for isWrapper(v) {
+						v = v.Kids[0]
+					}
+					if v.Tag == "Ident" {
+						if val := env[strings.TrimPrefix(v.Atoms[0], "s:")]; val != nil && len(val.Kids) < 2 {
+							cls = "top-splice-short"
+						}
+					}
+				}
+			}
+			top = false
+		}
+	})
+	return cls
+}
+
 type caseIn struct {
 	Src    string `json:"src"`
 	Stream string `json:"stream"`
@@ -751,6 +786,10 @@ func main() {
 			if stream != "random" {
 				fail("corpus template does not parse", perr, nil)
 			}
+			return
+		}
+		if cls := avoidedClass(tmpl, envRaw); cls != "" && stream == "random" {
+			rep.Dist("generator:avoided-known-class:" + cls)
 			return
 		}
 		idx++
@@ -906,6 +945,9 @@ func main() {
 		{"~quasiquote{~quasiquote{1; ~unquote{~unquote{bv}}}}", "C21-nested-block"},
 		{"~quasiquote{L: var v = 1}", "C21-classic-labeled-decl"},
 		{"~quasiquote{x + 1}", "C21-classic-shares-template-nodes"},
+		{"~quasiquote{g(~,@le0)}", "C21-fast-empty-splice"},
+		{"~quasiquote{~unquote_splice{le1}}", "C21-top-splice-short"},
+		{"~quasiquote{~quote{}}", "C21-nested-empty-body"},
 		{"~quasiquote{~quasiquote{1; ~unquote{2}; ~unquote{~unquote_splice{le2}}}}", ""},
 		{"~quasiquote{~quasiquote{1; ~unquote_splice{~unquote_splice{le2}}}}", ""},
 		{"~quasiquote{~quasiquote{~quasiquote{1; ~unquote{~unquote{~unquote_splice{le3}}}}}}", ""},
